@@ -788,6 +788,12 @@ func stubJSONUnmarshal(t *Thread, fn *ssa.Function, args []Value, pos token.Pos)
 		bk = e.valueKey(b.cells[0].v)
 	}
 	k := bk + "->" + pt.Elem().String()
+	switch pt.Elem().Underlying().(type) {
+	case *types.Struct, *types.Map:
+		// json.Unmarshal MERGES into structs and maps (fields / keys absent from the document keep
+		// what the destination held): the outcome is a function of the destination's prior content too
+		k += "|prior=" + e.valueKey(cell.v)
+	}
 	u := e.json.unmarshal[k]
 	if u == nil {
 		n := len(e.json.unmarshal)
